@@ -30,6 +30,9 @@ type c18gCase struct {
 	Stack  string   `json:"stack"`
 	Ctx    string   `json:"ctx"` // background | metadata | value+deadline | cancel
 	UseExe string   `json:"executor_ctx"`
+	// Wrapped: the invoker/handler returns the status error annotated by another layer (fmt.Errorf("...: %w", statusErr)),
+	// as an inner interceptor or a wrapping handler does; status.FromError still finds the code
+	Wrapped bool `json:"wrapped_status,omitempty"`
 }
 
 func grpcStack(stack string) []failsafe.Policy[*grpcReply] {
@@ -57,6 +60,7 @@ func c18GRPC(rep *vk.Report, idx int) {
 	for i := 0; i < n; i++ {
 		cs.Codes = append(cs.Codes, uint32(r.IntN(17)))
 	}
+	cs.Wrapped = r.IntN(4) == 0
 	if idx%17 < 17 && r.IntN(3) == 0 {
 		cs.Codes[0] = uint32(idx % 17) // every code is exercised as a first answer
 	}
@@ -123,6 +127,9 @@ func c18GRPC(rep *vk.Report, idx int) {
 		c := codes.Code(cs.Codes[min(k, len(cs.Codes)-1)])
 		if c == codes.OK {
 			return nil
+		}
+		if cs.Wrapped {
+			return fmt.Errorf("annotated by an inner layer: %w", status.Error(c, fmt.Sprintf("scripted %d", k)))
 		}
 		return status.Error(c, fmt.Sprintf("scripted %d", k))
 	}
